@@ -102,7 +102,7 @@ class P(vlib.Prop):
                      "^TestVerifC07Sweep$", g)
         for g, m, p in PKGS
     ]
-    rule = ("pmetric: generated programs (8-35 steps, up to 4 handles of 12 root types: Metrics, MetricSlice, HistogramDataPointSlice, "
+    rule = ("pmetric: generated programs (8-35 steps, up to 4 handles of 16 root types: Metrics, MetricSlice, ExponentialHistogramDataPoint(Slice), SummaryDataPoint(Slice), HistogramDataPointSlice, "
             "ExemplarSlice (slice of values), NumberDataPointSlice, Metric, HistogramDataPoint, NumberDataPoint, pcommon.Map/Slice/Value, "
             "UInt64Slice) of set / set-optional / set-oneof / set-empty / ensure-capacity / append / remove-if / sort / clear / put / "
             "map-remove / from-raw / CopyTo (slot and struct) / MoveTo / MoveAndAppendTo / mark-read-only at random nested positions; a third "
@@ -115,7 +115,7 @@ class P(vlib.Prop):
             "value: direct oracle only.")
     trusted_base = [
         "Coq 8.16.1 kernel + vm_compute (coqc); no axioms (Print Assumptions: closed under the global context)",
-        "memory model of C07/Model.v: the acyclic pdata object graph presented as its unfolding with addresses (structural update = heap update while no address occurs twice); Go's append/make/reslice/clear semantics as written there",
+        "memory model of C07/Model.v: the acyclic pdata object graph presented as its unfolding with addresses (that the structural update is the heap update is a theorem: sep_invariant + store_is_structural_update); Go's append/make/reslice/clear semantics as written there",
         "hand-written schema instance pmetric_schema (mirrored in harness/C07/pmetric_test.go), tied by the correspondence run",
         "source scan in props/C07/check.py (regex over generated_*.go, map.go, slice.go, value.go ...) producing Generated/C07PdataMutators.v; cross-checked at run time by the reflection sweep over the same method sets",
         "Go harnesses harness/C07/*.go(.tmpl) + go test -overlay; Go toolchain; reflect",
